@@ -878,6 +878,8 @@ class Tr:
                 return f"(some {self.to_rat(c, t)})", want
         if want == "Rat" and t == "Int":
             return self.to_rat(c, t), want
+        if isinstance(want, tuple) and want[0] == "List" and t == ("List", "?"):
+            return f"({c} : {lean_type(want)})", want   # the empty list display under a declared local type
         raise Untranslatable(f"variable changes type from {want} to {t}")
 
     def call_stmt(self, call, rest, env, k, loop):
@@ -1660,6 +1662,10 @@ def driver_source(specs, status, src_root):
             if status.get(n, {}).get("translated"):
                 imports.append(f"import FinamModel.Translated.{n}")
                 cases.append(f'  | "{n}" => toJ (Tr.{n} (heapOfJson (argAt args 0)) (fromJ (argAt args 1)))')
+        if status.get("metadata_links", {}).get("translated"):
+            imports.append("import FinamModel.Translated.metadata_links")
+            cases.append('  | "metadata_links" => toJ (Tr.metadata_links (heapOfJson (argAt args 0)) (fromJ (argAt args 1)) '
+                         '(fromJ (argAt args 2)) (fromJ (argAt args 3)))')
         for n in ("collect_inputs_outputs", "check_missing_components"):
             if status.get(n, {}).get("translated"):
                 imports.append(f"import FinamModel.Translated.{n}")
